@@ -278,6 +278,22 @@ def kf_c10_wcsncmp_ignores_count(case, o, kind, cfg, consts):
     n = min(m['dmax'], m['smax'], case.args[4]); d, s = m['d'], m['s']
     return d[:n] == s[:n]
 @pred
+def kf_c10_strcasecmp_folds_up(case, o, kind, cfg, consts):
+    # strcasecmp_s folds to upper case, strcasecmp to lower case: the characters [ \\ ] ^ _ ` (0x5b..0x60) order differently against letters
+    m = case.meta
+    if case.func != 'strcasecmp_s' or kind != 'wrong-sign': return False
+    d, s_ = m['d'][:m['dmax']], m['s'][:m['dmax']]
+    up = lambda l: [x - 32 if 0x61 <= x <= 0x7a else x for x in l]
+    lo = lambda l: [x + 32 if 0x41 <= x <= 0x5a else x for x in l]
+    n = min(len(d), len(s_))
+    k = next((i for i in range(n) if up(d)[i] != up(s_)[i]), None)
+    if k is None: return False
+    a, b = d[k], s_[k]
+    between = lambda x: 0x5b <= x <= 0x60
+    letter = lambda x: 0x41 <= x <= 0x5a or 0x61 <= x <= 0x7a
+    return (between(a) and letter(b)) or (between(b) and letter(a))
+
+@pred
 def kf_c10_strcmp_signed_char(case, o, kind, cfg, consts):
     # strcmp_s subtracts plain (signed) chars: a byte >= 0x80 compares below ASCII
     m = case.meta
